@@ -77,6 +77,9 @@ structure Cfg where
   perMig : Bool
   /-- the caller had begun a transaction before `configure` (`_in_external_transaction`) -/
   external : Bool
+  /-- the transaction alembic takes for the caller's has no owner: it was autobegun by an earlier
+      context on the same connection (finding C04-F2), so nobody ever commits it -/
+  orphan : Bool := false
   deriving Repr
 
 /-- Connection + the bits of `MigrationContext` that matter. -/
@@ -244,7 +247,7 @@ def initSt (c : Cfg) (db : σ) : St σ :=
 /-- leaving the connection scope: `Connection.close()` rolls back whatever is still open;
     an external caller (`with connection.begin():`) commits on success, rolls back on error -/
 def closeConn (c : Cfg) (exc : Bool) (st : St σ) : St σ :=
-  if c.external && !exc then commit st else rollback st
+  if c.external && !exc && !c.orphan then commit st else rollback st
 
 /-- the whole `env.py` shape; result = what a fresh connection sees afterwards -/
 def runFinal (c : Cfg) (pre : List (Stmt α)) (progs : List (List (Atom α))) (db : σ) : σ :=
